@@ -6,6 +6,7 @@ Local Open Scope Z_scope.
 
 Ltac cs_facts :=
   repeat match goal with
+  | H : cs_submit_g _ _ _ _ = Some _ |- _ => let FG := fresh "FG" in apply cs_submit_g_spec in H; destruct H as (FG & H)
   | H : cs_submit _ _ _ = Some _ |- _ => apply cs_submit_spec in H; destruct H
   | H : cs_got _ _ _ = Some _ |- _ => apply cs_got_spec in H
   | H : cs_after _ _ _ _ _ = Some _ |- _ => apply cs_after_spec in H; destruct H as (? & ? & ?)
@@ -73,31 +74,37 @@ Proof.
 Qed.
 
 Definition AAct (s : state) : Prop :=
-  forall t, act s t <> ANone -> t = own s \/ exists i last, wpc_of s t = WWork i last.
+  forall t, act s t <> ANone -> t = own s \/ (exists i last, wpc_of s t = WWork i last) \/
+    (tk (th s t) = KHelper /\ (tp (th s t) = TRun \/ tp (th s t) = TExiting)).
 
 Lemma unlock_act_none : forall a, unlock_act a = ANone -> a = ANone.
 Proof. destruct a; simpl; auto. - destruct g; discriminate. - destruct g; discriminate. Qed.
 
 Lemma AAct_step : forall s l s', TB s -> AAct s -> step s l = Some s' -> AAct s'.
 Proof.
-  intros s l s' (_ & _ & _ & T4 & T5 & _) I H.
+  intros s l s' (_ & _ & T3 & T4 & T5 & _) I H.
   step_inv H; hold_facts; cs_facts; unfold AAct in *; ssimp; ifs; ssimp; bools; try assumption.
   all: intros tt Ht; pose proof (I tt) as IT; unfold upd in *.
   all: repeat match goal with
        | |- context [Nat.eqb ?a ?b] => destruct (Nat.eqb a b) eqn:?; bools; subst
        | H : context [Nat.eqb ?a ?b] |- _ => destruct (Nat.eqb a b) eqn:?; bools; subst
-       end; cbn [wpcf wkicked wkpend] in *; auto.
-  all: try (right; eauto; fail).
+       end; cbn [wpcf wkicked wkpend tk tp] in *; auto.
+  all: try (right; left; eauto; fail).
   all: try (apply IT; intros X; rewrite X in Ht; now apply Ht).
-  all: try (destruct IT as [X | (i1 & l1 & X)]; auto; congruence).
+  all: try (destruct IT as [X | [(i1 & l1 & X) | (X & Y)]]; auto; congruence).
   all: try (unfold own_may_act in *; bools; subst; auto; fail).
-  all: try (destruct (wpcf (wk s tt)) eqn:P; try discriminate; right; eauto; fail).
+  all: try (destruct (wpcf (wk s tt)) eqn:P; try discriminate; right; left; eauto; fail).
   all: try congruence.
-  all: try (apply orb_true_iff in H0; destruct H0 as [X | X];
-            [unfold own_may_act in X; bools; auto | destruct (wpcf (wk s n)) eqn:P; try discriminate; right; eauto]).
-  all: try (apply memb_false in H0; destruct IT as [X | (i1 & l1 & X)]; auto;
-            exfalso; apply H0; apply T4; apply T5; rewrite X; discriminate).
-  all: try (apply IT; rewrite E7; discriminate).
+  all: try (unfold act_free in *; apply IT; intros X; rewrite X in *; try discriminate; now apply Ht).
+  all: try (destruct IT as [X | [(i1 & l1 & X) | (X & [Y | Y])]]; auto; try congruence; try (right; left; eauto; fail); fail).
+  all: try (apply memb_false in H0; exfalso; destruct IT as [X | [(i1 & l1 & X) | (X & _)]]; auto; apply H0;
+            [apply T4; apply T5; rewrite X; discriminate | apply T3; rewrite X; discriminate]).
+  all: try (apply orb_true_iff in H0; destruct H0 as [H0 | X];
+            [apply orb_true_iff in H0; destruct H0 as [X | X];
+             [unfold own_may_act in X; bools; auto | destruct (wpcf (wk s n)) eqn:P; try discriminate; right; left; eauto]
+            | unfold helper_runs in X; destruct (tk (th s n)); try discriminate; destruct (tp (th s n)); try discriminate;
+              right; right; auto]).
+  all: exfalso; unfold act_free in *; destruct (act s n); try discriminate; now apply Ht.
 Qed.
 
 Definition ALock (s : state) : Prop := forall t, lock s = Some t -> exists p, pl s = PLive p.
